@@ -8,6 +8,8 @@ for d in seeded/*/; do
   if [ $# -gt 0 ] && ! echo " $* " | grep -q " $id "; then continue; fi
   sup=$(python3 -c "import json;print(json.load(open('$d/meta.json')).get('superseded_by_fix',''))")
   if [ -n "$sup" ]; then echo "SELFTEST $id: superseded by fix $sup (the change is no longer a fault on this tree)"; continue; fi
+  nc=$(python3 -c "import json;print('1' if json.load(open('$d/meta.json')).get('not_claimed') else '')")
+  if [ -n "$nc" ]; then echo "SELFTEST $id: not claimed (the change does not violate the property as stated; see its meta.json)"; continue; fi
   checks=$(python3 -c "import json;print(' '.join(json.load(open('$d/meta.json'))['caught_by']))")
   out=$(tools/seedtest.sh $d/patch.diff $checks 2>&1)
   suite=$(echo "$out" | grep -c "81 passed")
